@@ -87,6 +87,7 @@ STATS = {"chol_contract_calls": 0, "chol_contract_max_residual": 0.0, "solver_ru
                      "input_kind_variants": {}, "second_inversions_same_objects": 0, "second_inversions_config_flipped": 0,
                      "default_settings_calls": 0}}
 CHOL_BUDGET = [120]     # number of Cholesky-update calls turned into Coq cases (set per tier by gen_inputs)
+CHOL_MAXROT = [3]       # deepest deletion replayed in Coq: 3 rotations cost about 20 s of exact rational square roots each (quick tier: 2)
 SKIPPED = {}        # reason -> number of cases not evaluated at all
 SPEC_ONLY = {}      # reason -> number of cases where only the specification was evaluated on the implementation's output (KSpec)
 def note(d, reason): d[reason] = d.get(reason, 0) + 1
@@ -102,7 +103,7 @@ def extra_evidence():
     return {"skipped_by_reason": dict(SKIPPED), "skipped_total": sum(SKIPPED.values()),
             "spec_only_by_reason": dict(SPEC_ONLY), "spec_only_total": sum(SPEC_ONLY.values()),
             "cholesky_contract_calls": STATS["chol_contract_calls"], "cholesky_update_calls_checked_in_coq": STATS["chol_cases_in_coq"],
-            "cholesky_delete_calls_not_replayed_in_coq_more_than_3_rotations": STATS["chol_calls_too_deep_for_coq"],
+            "cholesky_delete_calls_not_replayed_in_coq_more_than_3_rotations": STATS["chol_calls_too_deep_for_coq"], "cholesky_delete_max_rotations_replayed_in_coq": CHOL_MAXROT[0],
             "cholesky_contract_max_residual": STATS["chol_contract_max_residual"],
             "branch_tally": {k: STATS[k] for k in ("solver_runs", "runs_with_prune_step", "runs_with_2plus_prune_rounds", "runs_with_inner_fix_step",
                                                    "runs_with_2plus_inner_fix_steps", "runs_with_multi_delete_step_exact", "outer_iterations")},
@@ -480,7 +481,7 @@ class CholWatch:
             # model grow about five-fold in size per rotation (1000 s for 5 rotations), so only calls with at most 3 rotations are replayed in Coq
             size = U0.shape[0]; rot = 0
             for i in sorted(arg, reverse=True): rot += size - 1 - i; size -= 1
-            if rot > 3: STATS["chol_calls_too_deep_for_coq"] += 1; return
+            if rot > CHOL_MAXROT[0]: STATS["chol_calls_too_deep_for_coq"] += 1; return
         out = np.asarray(out, dtype=float)
         if out.ndim != 2 or out.shape[0] != out.shape[1] or not np.all(np.isfinite(out)): return     # shape / nan: reported by `note`
         CHOL_BUDGET[0] -= 1; STATS["chol_cases_in_coq"] += 1
@@ -722,7 +723,7 @@ ORDERS = ["fm", "fmf", "ffm", "mfm", "fmm", "mf", "fmfm", "m"]     # f = non-map
 
 def gen_inputs(tier, rng):
     big = tier == "thorough"
-    CHOL_BUDGET[0] = 600 if big else 60
+    CHOL_BUDGET[0] = 600 if big else 60; CHOL_MAXROT[0] = 3 if big else 2
     # ---- the glue layer: every order of mappers / non-mapper objects with non-empty forced lists (mock objects, then Rectangular mappers)
     for i in range(160 if big else 24):
         yield gen_mock_order(rng, ORDERS[i % len(ORDERS)], i)
@@ -1070,7 +1071,9 @@ def run_fnnls(aa, inp):
     An = flm(A); bn = np.array(fl(b)); A0 = An.copy(); b0 = bn.copy(); arg0 = arg.copy()
     omit = st["kind"] == "none" and key % 2 == 1           # the shared default argument object P_initial=np.zeros(0, dtype=int)
     def f(a_, b_): return call(fnnls.fnnls_cholesky, a_, b_) if omit else call(fnnls.fnnls_cholesky, a_, b_, arg)
-    with CholWatch(record=why not in (ILL, LARGE)) as cw:
+    # (the Coq replay of a Cholesky update takes exact rational square roots: only for the small-integer / quarter systems, not for
+    # scaled systems or the 1/256-unit fan systems, whose rationals explode; the numerical contract check runs on every call regardless)
+    with CholWatch(record=why not in (ILL, LARGE) and not inp.get("scale") and not inp.get("swap")) as cw:
         raw = f(An, bn)
     res = out_vec(raw)
     if why == ILL and cert_swamped(A, b, res): return skip_row("fnnls", "ill-conditioned and rounding error of the certificate near its tolerance")
@@ -1107,7 +1110,7 @@ def run_posonly(aa, inp):
         def f(a_, b_): return call(fn, data_vector=b_, curvature_reg_matrix=a_, settings=settings)
     fp0 = dict(vars(settings)) if settings is not None else None
     An = flm(A) if n else np.zeros((0, 0)); bn = np.array(fl(b)); A0 = An.copy(); b0 = bn.copy()
-    with CholWatch(record=why not in (ILL, LARGE)) as cw:
+    with CholWatch(record=why not in (ILL, LARGE) and not inp.get("swap")) as cw:
         raw = f(An, bn)
     res = out_vec(raw)
     if why == ILL and cert_swamped(A, b, res):
@@ -1212,7 +1215,7 @@ def inversion_rows(aa, inv, objs_desc, st, kind, nontrivial=True, big=False, sec
         if st["pos"] and st["force"] and st["edge_image"] and any(o["mapper"] and o["edge"] for o in objs_desc) and zero_list:
             STATS["glue_cases_nonmapper_before_mapper_with_forced_edge_and_zero_lists"] += 1
             STATS["glue_..._of_which_" + ("rectangular_mappers" if kind.startswith("real") else "mock_mappers")] += 1
-    with CholWatch(record=why not in (ILL, COST, LARGE)) as cw:
+    with CholWatch(record=why not in (ILL, COST, LARGE) and ":swap" not in kind) as cw:
         raw = call(lambda: inv.reconstruction)
     res = out_vec(raw)
     cobjs = clist([cobj(o["params"], o["mapper"], o["edge"], o["Mq"]) for o in objs_desc])
